@@ -23,9 +23,9 @@ from . import docs, docprops as dp
 _TOKENS = []
 
 
-def sess_tokens(idx, per=40):
+def sess_tokens(idx, per=40, chunk=None):
     """one document holding `per` of the tokens the writer automaton emitted, one per line."""
-    chunk = _TOKENS[idx * per:(idx + 1) * per]
+    chunk = chunk if chunk is not None else _TOKENS[idx * per:(idx + 1) * per]
     lines = [{'ev': 'header', 'cells': [gen.lit('hdr', '**kern')]}]
     for t in chunk:
         lines.append({'ev': 'row', 'cells': [{'k': 'note', 't': t['t'], 'n': t['n']}]})
@@ -38,7 +38,8 @@ def sess_tokens(idx, per=40):
         k2 = len(evs)
         evs.append(session.record_reexport(doc, k1, 'kern'))
         evs.append(session.record_reexport(doc, k2, 'ekern'))
-    return {'log': evs, 'text': text, 'classes': [], 'seed': idx, 'tags': ['writer-automaton-tokens']}
+    return {'log': evs, 'text': text, 'classes': [], 'seed': idx, 'tags': ['writer-automaton-tokens'],
+            'replay': {'fn': 'harness.checks.c01:sess_tokens', 'seed': idx, 'kw': {'chunk': chunk}}}
 
 
 def main():
@@ -65,14 +66,7 @@ def main():
     run.note('automaton_tokens_emitted', len(mc.vp))
     run.note('automaton_tokens_replayed', len(toks))
     if a.replay_case:
-        case = a.replay_case['case']
-        if 'writer-automaton-tokens' in (case.get('tags') or []):
-            sess = [sess_tokens(case['seed'])]
-        else:
-            pop = 'explore_chords' if 'explore_chords' in (case.get('tags') or []) else 'main'
-            sess = [dp.sess_c01(case['seed'], profile=pop)]
-            if pop == 'explore_chords':
-                sess[0]['case_id'] = f"explore_chords:{case['seed']}"
+        sess = docs.replay_sessions(a.replay_case)
     else:
         sess = docs.build_sessions(sess_tokens, range((len(toks) + 39) // 40))
         pops = [('main', 220 if quick else 5000, {}), ('explore_chords', 40 if quick else 300, {'profile': 'explore_chords'})]
